@@ -33,9 +33,36 @@ type zzBal struct {
 // ZZBank follows x/bank: operations validate the coins, fail without effect on insufficient funds,
 // mint/burn adjust supply; module accounts are addresses derived from the module name.
 type ZZBank struct {
+	ms *vrt.MultiStore // the root store: balances are attached to it and follow CacheContext / commit like store data
+}
+
+// zzBankState: the balances and supplies at one store layer.
+type zzBankState struct {
 	Bals   []zzBal
 	Supply []zzBal // Addr unused
-	Ops    int
+}
+
+func (s *zzBankState) CloneAtt() vrt.AttState {
+	c := &zzBankState{}
+	c.Bals = append(c.Bals, s.Bals...)
+	c.Supply = append(c.Supply, s.Supply...)
+	return c
+}
+
+func zzNewBank(ms *vrt.MultiStore) *ZZBank {
+	ms.Att = &zzBankState{}
+	return &ZZBank{ms: ms}
+}
+
+// State is the committed state (what the harness sets up and inspects).
+func (b *ZZBank) State() *zzBankState { return b.ms.AttGet().(*zzBankState) }
+
+// at: the state visible in ctx's store layer, for reading / for writing (copy-on-write inside a cache context)
+func (b *ZZBank) rd(ctx sdk.Context) *zzBankState {
+	return ctx.MultiStore().(*vrt.MultiStore).AttGet().(*zzBankState)
+}
+func (b *ZZBank) wr(ctx sdk.Context) *zzBankState {
+	return ctx.MultiStore().(*vrt.MultiStore).AttForWrite().(*zzBankState)
 }
 
 var zzModuleAddr = sdk.AccAddress{2, 2, 2, 2, 2, 2, 2, 2, 2, 2, 2, 2, 2, 2, 2, 2, 2, 2, 2, 2}
@@ -47,136 +74,140 @@ func (b *ZZBank) moduleAddr(name string) sdk.AccAddress {
 	panic("module account " + name + " does not exist")
 }
 
-func (b *ZZBank) Balance(addr []byte, denom string) sdk.Int {
-	for i := range b.Bals {
-		if b.Bals[i].Denom == denom && bytes.Equal(b.Bals[i].Addr, addr) {
-			return b.Bals[i].Amt
+func (s *zzBankState) Balance(addr []byte, denom string) sdk.Int {
+	for i := range s.Bals {
+		if s.Bals[i].Denom == denom && bytes.Equal(s.Bals[i].Addr, addr) {
+			return s.Bals[i].Amt
 		}
 	}
 	return sdk.ZeroInt()
 }
 
-func (b *ZZBank) SetBalance(addr []byte, denom string, amt sdk.Int) {
-	for i := range b.Bals {
-		if b.Bals[i].Denom == denom && bytes.Equal(b.Bals[i].Addr, addr) {
-			b.Bals[i].Amt = amt
+func (s *zzBankState) SetBalance(addr []byte, denom string, amt sdk.Int) {
+	for i := range s.Bals {
+		if s.Bals[i].Denom == denom && bytes.Equal(s.Bals[i].Addr, addr) {
+			nb := append([]zzBal{}, s.Bals...) // layers share nothing mutable
+			nb[i].Amt = amt
+			s.Bals = nb
 			return
 		}
 	}
-	b.Bals = append(b.Bals, zzBal{Addr: addr, Denom: denom, Amt: amt})
+	s.Bals = append(append([]zzBal{}, s.Bals...), zzBal{Addr: addr, Denom: denom, Amt: amt})
 }
 
-func (b *ZZBank) SupplyOf(denom string) sdk.Int {
-	for i := range b.Supply {
-		if b.Supply[i].Denom == denom {
-			return b.Supply[i].Amt
+func (s *zzBankState) SupplyOf(denom string) sdk.Int {
+	for i := range s.Supply {
+		if s.Supply[i].Denom == denom {
+			return s.Supply[i].Amt
 		}
 	}
 	return sdk.ZeroInt()
 }
 
-func (b *ZZBank) SetSupply(denom string, amt sdk.Int) {
-	for i := range b.Supply {
-		if b.Supply[i].Denom == denom {
-			b.Supply[i].Amt = amt
+func (s *zzBankState) SetSupply(denom string, amt sdk.Int) {
+	for i := range s.Supply {
+		if s.Supply[i].Denom == denom {
+			ns := append([]zzBal{}, s.Supply...)
+			ns[i].Amt = amt
+			s.Supply = ns
 			return
 		}
 	}
-	b.Supply = append(b.Supply, zzBal{Denom: denom, Amt: amt})
+	s.Supply = append(append([]zzBal{}, s.Supply...), zzBal{Denom: denom, Amt: amt})
 }
 
-func (b *ZZBank) Clone() *ZZBank {
-	c := &ZZBank{Ops: b.Ops}
-	c.Bals = append(c.Bals, b.Bals...)
-	c.Supply = append(c.Supply, b.Supply...)
-	return c
-}
+// harness-facing accessors: the committed state
+func (b *ZZBank) Balance(addr []byte, denom string) sdk.Int         { return b.State().Balance(addr, denom) }
+func (b *ZZBank) SetBalance(addr []byte, denom string, amt sdk.Int) { b.State().SetBalance(addr, denom, amt) }
+func (b *ZZBank) SupplyOf(denom string) sdk.Int                     { return b.State().SupplyOf(denom) }
+func (b *ZZBank) SetSupply(denom string, amt sdk.Int)               { b.State().SetSupply(denom, amt) }
 
-func (b *ZZBank) sub(addr []byte, amt sdk.Coins) error {
+func (s *zzBankState) sub(addr []byte, amt sdk.Coins) error {
 	if !amt.IsValid() {
 		return sdkerrors.Wrap(sdkerrors.ErrInvalidCoins, "invalid coins")
 	}
 	for _, c := range amt {
-		if b.Balance(addr, c.Denom).LT(c.Amount) {
+		if s.Balance(addr, c.Denom).LT(c.Amount) {
 			return sdkerrors.Wrap(sdkerrors.ErrInsufficientFunds, "insufficient funds")
 		}
 	}
 	for _, c := range amt {
-		b.SetBalance(addr, c.Denom, b.Balance(addr, c.Denom).Sub(c.Amount))
+		s.SetBalance(addr, c.Denom, s.Balance(addr, c.Denom).Sub(c.Amount))
 	}
 	return nil
 }
 
-func (b *ZZBank) add(addr []byte, amt sdk.Coins) error {
+func (s *zzBankState) add(addr []byte, amt sdk.Coins) error {
 	if !amt.IsValid() {
 		return sdkerrors.Wrap(sdkerrors.ErrInvalidCoins, "invalid coins")
 	}
 	for _, c := range amt {
-		b.SetBalance(addr, c.Denom, b.Balance(addr, c.Denom).Add(c.Amount))
+		s.SetBalance(addr, c.Denom, s.Balance(addr, c.Denom).Add(c.Amount))
 	}
 	return nil
 }
 
 func (b *ZZBank) GetSupply(ctx sdk.Context, denom string) sdk.Coin {
-	return sdk.Coin{Denom: denom, Amount: b.SupplyOf(denom)}
+	return sdk.Coin{Denom: denom, Amount: b.rd(ctx).SupplyOf(denom)}
 }
 
 func (b *ZZBank) SendCoinsFromModuleToAccount(ctx sdk.Context, senderModule string, recipientAddr sdk.AccAddress, amt sdk.Coins) error {
-	b.Ops++
+	st := b.wr(ctx)
 	from := b.moduleAddr(senderModule)
-	if err := b.sub(from, amt); err != nil {
+	if err := st.sub(from, amt); err != nil {
 		return err
 	}
-	return b.add(recipientAddr, amt)
+	return st.add(recipientAddr, amt)
 }
 
 func (b *ZZBank) SendCoinsFromModuleToModule(ctx sdk.Context, senderModule, recipientModule string, amt sdk.Coins) error {
-	b.Ops++
+	st := b.wr(ctx)
 	from, to := b.moduleAddr(senderModule), b.moduleAddr(recipientModule)
-	if err := b.sub(from, amt); err != nil {
+	if err := st.sub(from, amt); err != nil {
 		return err
 	}
-	return b.add(to, amt)
+	return st.add(to, amt)
 }
 
 func (b *ZZBank) SendCoinsFromAccountToModule(ctx sdk.Context, senderAddr sdk.AccAddress, recipientModule string, amt sdk.Coins) error {
-	b.Ops++
+	st := b.wr(ctx)
 	to := b.moduleAddr(recipientModule)
-	if err := b.sub(senderAddr, amt); err != nil {
+	if err := st.sub(senderAddr, amt); err != nil {
 		return err
 	}
-	return b.add(to, amt)
+	return st.add(to, amt)
 }
 
 func (b *ZZBank) MintCoins(ctx sdk.Context, name string, amt sdk.Coins) error {
-	b.Ops++
+	st := b.wr(ctx)
 	acc := b.moduleAddr(name)
-	if err := b.add(acc, amt); err != nil {
+	if err := st.add(acc, amt); err != nil {
 		return err
 	}
 	for _, c := range amt {
-		b.SetSupply(c.Denom, b.SupplyOf(c.Denom).Add(c.Amount))
+		st.SetSupply(c.Denom, st.SupplyOf(c.Denom).Add(c.Amount))
 	}
 	return nil
 }
 
 func (b *ZZBank) BurnCoins(ctx sdk.Context, name string, amt sdk.Coins) error {
-	b.Ops++
+	st := b.wr(ctx)
 	acc := b.moduleAddr(name)
-	if err := b.sub(acc, amt); err != nil {
+	if err := st.sub(acc, amt); err != nil {
 		return err
 	}
 	for _, c := range amt {
-		b.SetSupply(c.Denom, b.SupplyOf(c.Denom).Sub(c.Amount))
+		st.SetSupply(c.Denom, st.SupplyOf(c.Denom).Sub(c.Amount))
 	}
 	return nil
 }
 
 func (b *ZZBank) GetAllBalances(ctx sdk.Context, addr sdk.AccAddress) sdk.Coins {
+	st := b.rd(ctx)
 	var out sdk.Coins
-	for i := range b.Bals {
-		if bytes.Equal(b.Bals[i].Addr, addr) && b.Bals[i].Amt.IsPositive() {
-			out = append(out, sdk.Coin{Denom: b.Bals[i].Denom, Amount: b.Bals[i].Amt})
+	for i := range st.Bals {
+		if bytes.Equal(st.Bals[i].Addr, addr) && st.Bals[i].Amt.IsPositive() {
+			out = append(out, sdk.Coin{Denom: st.Bals[i].Denom, Amount: st.Bals[i].Amt})
 		}
 	}
 	return out
@@ -397,7 +428,7 @@ var (
 func ZZNewEnv(height int64, unixTime int64) *ZZEnv {
 	ms := vrt.NewMultiStore()
 	cdc := zzCodec()
-	env := &ZZEnv{MS: ms, Key: zzStoreKey, Bank: &ZZBank{}, Staking: &ZZStaking{}, Account: &ZZAccount{}, Oracle: &ZZOracle{}}
+	env := &ZZEnv{MS: ms, Key: zzStoreKey, Bank: zzNewBank(ms), Staking: &ZZStaking{}, Account: &ZZAccount{}, Oracle: &ZZOracle{}}
 	env.Ctx = sdk.NewContext(ms, tmproto.Header{Height: height, Time: time.Unix(unixTime, 0)}, false, log.NewNopLogger())
 	k := Keeper{
 		storeKey:       zzStoreKey,
